@@ -46,6 +46,9 @@ type Req struct {
 	Damage string `json:",omitempty"`
 	Cut    int    `json:",omitempty"`
 	Body   BodySpec
+	// EmptyCE (probe only, never generated): the caller's request already carries a
+	// Content-Encoding header whose value is the empty string.
+	EmptyCE bool `json:",omitempty"`
 	// NilBody: http.NewRequest(…, nil) instead of an empty reader (empty bodies only).
 	NilBody bool `json:",omitempty"`
 	// Chunked hides the body length from net/http.
@@ -68,9 +71,24 @@ func (s *Script) effEnabled() map[string]bool {
 		l = defaultEnabled
 	}
 	for _, e := range l {
-		m[e] = true
+		if formatOf(e) != "" { // a name without decoder cannot be enabled, whatever the list says
+			m[e] = true
+		}
 	}
 	return m
+}
+
+// listedWithoutDecoder: compression_algorithms names e but no decoder exists for it.
+func (s *Script) listedWithoutDecoder(e string) bool {
+	if s.DefaultEnabled || formatOf(e) != "" {
+		return false
+	}
+	for _, x := range s.Enabled {
+		if x == e {
+			return true
+		}
+	}
+	return false
 }
 
 // ---- generator ----
@@ -281,6 +299,7 @@ type outcome struct {
 	wireKnown   bool
 	encoding    string // Content-Encoding on the wire
 	status      int    // 0: no response
+	wireCE      []string
 	clientErr   error
 	clientPanic string
 	rec         *record
@@ -346,6 +365,8 @@ func send(srv *server, s *Script, r *Req) (*outcome, error) {
 	req.Header.Set("Content-Type", "application/octet-stream")
 	if r.handMade() {
 		req.Header.Set("Content-Encoding", r.Header)
+	} else if r.EmptyCE {
+		req.Header["Content-Encoding"] = []string{""}
 	}
 	var resp *http.Response
 	if p, _ := vt.Recover(func() { resp, err = cl.c.Do(req) }); p != nil {
@@ -361,9 +382,13 @@ func send(srv *server, s *Script, r *Req) (*outcome, error) {
 	}
 	// what went to the transport
 	if wc.got > 0 {
-		if len(wc.ce) > 0 {
-			o.encoding = wc.ce[0]
+		for _, v := range wc.ce { // RFC 9110: empty list members do not name a coding
+			if v != "" {
+				o.encoding = v
+				break
+			}
 		}
+		o.wireCE = wc.ce
 		if wc.have {
 			o.wire, o.wireKnown = wc.body, true
 		} else if o.encoding == "" || r.handMade() {
@@ -564,10 +589,16 @@ func evaluate(s *Script, r *Req, o *outcome) (nontrivial bool, labels []string, 
 	}
 	W := int64(len(o.wire))
 	algo := algoName(E)
+	switch {
+	case r.EmptyCE:
+		algo = "empty-content-encoding-value"
+	case s.listedWithoutDecoder(E):
+		algo = "listed-without-decoder"
+	}
 	desc := func() string {
-		return fmt.Sprintf("limit=%d enabled=%v default=%v | client=%q/%d header=%q format=%q damage=%q/%d body=%s chunked=%v nilbody=%v readbuf=%d | wire=%d bytes plain=%d bytes | status=%d clientErr=%v | entered=%d ran=%d read=%d(+%d) readErr=%q panic=%q",
+		return fmt.Sprintf("limit=%d enabled=%v default=%v | client=%q/%d header=%q format=%q damage=%q/%d body=%s chunked=%v nilbody=%v readbuf=%d | wire=%d bytes wireCE=%q plain=%d bytes | status=%d clientErr=%v | entered=%d ran=%d read=%d(+%d) readErr=%q panic=%q",
 			s.Limit, s.Enabled, s.DefaultEnabled, r.Comp, r.Level, r.Header, r.Format, r.Damage, r.Cut, r.Body, r.Chunked, r.NilBody, r.ReadBuf,
-			W, len(P), o.status, o.clientErr, rec.entered, rec.ran, rec.n, rec.extra, rec.readErr, rec.chainPanic)
+			W, o.wireCE, len(P), o.status, o.clientErr, rec.entered, rec.ran, rec.n, rec.extra, rec.readErr, rec.chainPanic)
 	}
 
 	labels = append(labels, "body="+r.Body.Kind, "size="+sizeBucket(len(P)), "readbuf="+fmt.Sprint(r.ReadBuf))
@@ -626,6 +657,9 @@ func evaluate(s *Script, r *Req, o *outcome) (nontrivial bool, labels []string, 
 	}
 	if !enabled && !(lenient && rec.ran > 0) {
 		// (2) not enabled ⇒ client error, handler did not run
+		if rec.chainPanic != "" {
+			return nontrivial, labels, vt.Failf("middleware-panic/"+algo, "Content-Encoding %q cannot be decoded; instead of a 4xx the middleware panicked (net/http then drops the connection): %s", E, desc())
+		}
 		if rec.ran > 0 {
 			return nontrivial, labels, vt.Failf("handler-ran-on-disabled-encoding/"+algo, "Content-Encoding %q is not enabled but the handler ran: %s", E, desc())
 		}
@@ -700,5 +734,5 @@ func evaluate(s *Script, r *Req, o *outcome) (nontrivial bool, labels []string, 
 }
 
 func TestRoundTrip(t *testing.T) {
-	vt.Run(t, c16, vt.N(20000, 400000), gen, run)
+	vt.Run(t, c16, vt.N(16000, 360000), gen, run)
 }
